@@ -139,8 +139,18 @@ class LargeBinaryMatrixRank:
   returns = "opaque"
   requires = ["bits >= 0", "n >= 0"]
   raises = {"InsufficientDataError": ("C12", "n < 4096")}
-  loops = {0: dict(invariant=["size >= 64"], types={"p_values": "opaque"})}
-  props = ["C12"]
+  # the ladder of matrix sizes: 64, 128, 256, ... - every size of the doubling chain whose square fits into n is tested
+  # (on its own size*size-bit prefix, split into rows of `size` bits), and the loop stops only when the next one does
+  # not fit; the xorshift family is caught by the LARGEST matrix only (C13)
+  entry_ghost = ["g_tested = 32"]
+  on_call = {SPLIT: ["assert [C12,C13] args[2] == size and args[1] == size * size and size * size <= n",
+                     "assert [C12,C13] size == 2 * g_tested", "g_tested = size"]}
+  loops = {0: dict(invariant=["size >= 64", "n >= 4096", ("C12,C13", "size == 2 * g_tested"),
+                              ("C12,C13", "g_tested == 32 or g_tested >= 64"),
+                              ("C12,C13", "implies(g_tested >= 64, g_tested * g_tested <= n)")],
+                   types={"p_values": "opaque"},
+                   at_exit=[("C12,C13", "size * size > n and g_tested * g_tested <= n and g_tested >= 64")])}
+  props = ["C12", "C13"]
 
 
 @contract(f"{U}::BinaryMatrixRank")
